@@ -7,6 +7,8 @@
 -/
 import FileD.Lemmas.Act.Subst
 import FileD.Lemmas.Act.Utf8Bytes
+import FileD.Lemmas.Act.HashTok
+import FileD.Lemmas.Act.Fields
 namespace FileD.PropsC13
 open FileD FileD.Act
 
@@ -103,5 +105,108 @@ example : Utf8Bytes.convert ⟨false, fun _ => true⟩ [92, 117, 100, 56, 48, 49
 theorem utf8_loop_terminates (cfg : Utf8Bytes.Cfg) (s buf : Bytes) :
     ∃ out, Utf8Bytes.loop cfg (s.length + 1) s buf = .ok out :=
   Utf8Bytes.loop_ok cfg (s.length + 1) s buf (by omega)
+
+/-! ### hash: by-bytes tokenizer of the normalizer -/
+
+/-- `normalizeByTokenizer` never panics: every enabled pattern set, every field value. In
+    particular `tok.data[prevEnd:t.begin]`, `tok.data[prevEnd:]` and `t.pos = pos + t.counter`
+    stay inside the value, and the token loop terminates. -/
+theorem hashtok_total (has : Nat → Bool) (data : Bytes) (p : Panic) :
+    HashTok.normalize has data ≠ .error p := by
+  obtain ⟨out, h⟩ := HashTok.normalize_ok has data
+  simp [h]
+
+/-- every token lies inside the value, starts at or after the scan position and makes progress -/
+theorem hashtok_token_in_bounds (has : Nat → Bool) (data : Bytes) (pos : Nat) :
+    ∃ r, HashTok.nextToken has data pos = .ok r ∧ HashTok.Good pos data r :=
+  HashTok.nextToken_ok has data pos
+
+/-- `a""b"c` with double_quoted enabled: `""b"` opens with two quotes and is never closed by two,
+    so the partial token runs to the end: `a<double_quoted>` -/
+example : HashTok.normalize (fun p => p == 4) [97, 34, 34, 98, 34, 99] =
+    .ok ([97] ++ HashTok.placeholder 4) := by rfl
+/-- `{a}` with every pattern enabled -/
+example : HashTok.normalize (fun _ => true) [123, 97, 125, 120] = .ok (HashTok.placeholder 1 ++ [120]) := by rfl
+
+/-! ### rename / move: key bookkeeping over the event tree
+
+  `wf` (Spec/C13.lean): every number literal of the tree is a JSON number; that is exactly what
+  a tree needs to encode to a document that re-parses (keys and strings are escaped by the
+  encoder, everything else is fixed syntax). -/
+
+/-- rename leaves a well-formed event well-formed: any override setting, any list of
+    (path, new name) pairs, any event. -/
+theorem rename_wellformed (preserve : Bool) (pairs : List (List Bytes × Bytes)) (root : JTree)
+    (h : SpecC13.wf root = true) : SpecC13.wf (Fields.rename preserve pairs root) = true :=
+  Fields.wf_rename preserve pairs h
+
+/-- {"a":{"b":1},"c":2} with a.b → c and override: {"a":{},"c":1} -/
+example : Fields.rename false [([[97], [98]], [99])]
+    (.obj [([97], .obj [([98], .num [49])]), ([99], .num [50])]) =
+    .obj [([97], .obj []), ([99], .num [49])] := by rfl
+
+/-- move (mode allow) never panics on `field[len(field)-1]` and leaves a well-formed event
+    well-formed, for every target and every list of non-empty field paths (validation drops empty
+    selectors; `ParseFieldSelector` of a non-empty selector is non-empty). -/
+theorem move_allow_total_wellformed (target : List Bytes) (fields : List (List Bytes)) (root : JTree)
+    (h : SpecC13.wf root = true) (hf : ∀ f ∈ fields, f ≠ []) :
+    ∃ r, Fields.moveAllow target fields root = .ok r ∧ SpecC13.wf r = true :=
+  Fields.moveAllow_ok target fields root h hf
+
+theorem move_allow_total (target : List Bytes) (fields : List (List Bytes)) (root : JTree)
+    (h : SpecC13.wf root = true) (hf : ∀ f ∈ fields, f ≠ []) (p : Panic) :
+    Fields.moveAllow target fields root ≠ .error p := by
+  obtain ⟨r, hr, _⟩ := Fields.moveAllow_ok target fields root h hf
+  simp [hr]
+
+/-- {"a":1,"b":{"c":2}} with fields [a, b.c] to target t: {"b":{},"t":{"a":1,"c":2}} -/
+example : Fields.moveAllow [[116]] [[[97]], [[98], [99]]]
+    (.obj [([97], .num [49]), ([98], .obj [([99], .num [50])])]) =
+    .ok (.obj [([116], .obj [([97], .num [49]), ([99], .num [50])]), ([98], .obj [])]) := by rfl
+
+/-- the empty path is what the hypothesis excludes: `field[len(field)-1]` would be `field[-1]` -/
+example : Fields.lastElem [] = .error .bounds := by rfl
+
+/-- move (mode block), with its range-over-a-shrinking-array loop, leaves a well-formed event
+    well-formed. -/
+theorem move_block_wellformed (tkey : Bytes) (blocked : List Bytes) (root : JTree)
+    (h : SpecC13.wf root = true) : SpecC13.wf (Fields.moveBlock tkey blocked root) = true :=
+  Fields.wf_moveBlock tkey blocked h
+
+/-- {"a":1,"x":2,"b":3} block [x] target t: a, b moved; the swap-removes leave x, t -/
+example : Fields.moveBlock [116] [[120]] (.obj [([97], .num [49]), ([120], .num [50]), ([98], .num [51])]) =
+    .obj [([116], .obj [([97], .num [49]), ([98], .num [51])]), ([120], .num [50])] := by rfl
+
+/-- what modify and convert_utf8_bytes do to the tree: a string is written at a path
+    (`CreateNestedField(root, path).MutateToBytesCopy(out)` / `node.MutateToBytesCopy`); whatever
+    bytes the filters or the scanner produced, the event stays well-formed. -/
+theorem modify_wellformed (path : List Bytes) (out : Bytes) (root : JTree) (h : SpecC13.wf root = true) :
+    SpecC13.wf (Fields.updateAt (fun _ => .str out) path (Fields.createNested path root)) = true :=
+  Fields.wf_updateAt _ (fun _ _ => rfl) path (Fields.wf_createNested path h)
+
+theorem utf8_wellformed (path : List Bytes) (out : Bytes) (root : JTree) (h : SpecC13.wf root = true) :
+    SpecC13.wf (Fields.updateAt (fun _ => .str out) path root) = true :=
+  Fields.wf_updateAt _ (fun _ _ => rfl) path h
+
+example : SpecC13.wf (.obj [([97], .num [49, 101, 53]), ([98], .arr [.str [255], .null])]) = true := by rfl
+example : SpecC13.wf (.obj [([97], .num [46, 53])]) = false := by rfl
+
+/-! ### the oracle applied to the implementation -/
+
+/-- a processed event passes the oracle only with one of the five defined `ActionResult`s and
+    a re-parsable event -/
+theorem action_result_defined (res status : String) (h : SpecC13.pairOk res status = true)
+    (hs : SpecC13.isSkip status = false) :
+    res ∈ SpecC13.definedResults ∧ status = "ok" := by
+  unfold SpecC13.pairOk at h
+  rw [hs] at h
+  simp only [Bool.false_eq_true, if_false, Bool.and_eq_true, beq_iff_eq] at h
+  exact ⟨List.contains_iff_mem.mp h.1, h.2⟩
+
+example : SpecC13.pairOk "hold" "ok" = true ∧ SpecC13.isSkip "ok" = false := by decide
+example : SpecC13.pairOk "undef7" "ok" = false := by decide
+example : SpecC13.pairOk "-" "panic:bounds@cfg/substitution.(*TrimToFilter).Apply:alone" = false := by decide
+example : SpecC13.pairsOk 2 ["pass", "ok", "hold", "ok", "st:ok"] = true := by decide
+example : SpecC13.pairsOk 1 ["pass", "ok", "st:changed@0"] = false := by decide
 
 end FileD.PropsC13
